@@ -1472,4 +1472,48 @@ def phase_rule(f):
                 out.append((short(b.path), b.where(header), ok,
                             'mapping write at %s; full refcount sweeps in the loop at %s' % (
                                 b.where(m), [b.where(r) for r in rcs])))
+    # the same condition when the passes are a loop of a *callee*: a function that performs the refcount sweep once and then
+    # awaits a helper which repeats mapping steps in a loop of its own (each step waits for I/O) runs several mapping passes
+    # behind one refcount sweep
+    unswept = {}
+    for b in f.body_list:
+        if not b.is_coroutine or '::tests::' in b.path:
+            continue
+        polls = [(bi, t) for bi, t in b.calls() if t.get('fn') in POLL_NAMES]
+        loops = natural_loops(b) if polls else []
+        for header, nodes in loops:
+            inloop = [(bi, t) for (bi, t) in polls if bi in nodes]
+            if not inloop:
+                continue
+            e = {bi: effects(b, bi, t) for (bi, t) in inloop}
+            if any(e[bi][0] & {'L2', 'L1'} for bi, _t in inloop) and not any('RB' in e[bi][1] for bi, _t in inloop):
+                unswept[b.path] = b.where(header)
+    if unswept:
+        for b in f.body_list:
+            if not b.is_coroutine or '::tests::' in b.path or b.path in unswept:
+                continue
+            polls = [(bi, t) for bi, t in b.calls() if t.get('fn') in POLL_NAMES]
+            if not polls:
+                continue
+            hits = []
+            for bi, t in polls:
+                for fu in P.futs(t['a'][0], ()):
+                    if fu.kind == 'async_fn':
+                        for co in f.coroutines_of(fu.path) or []:
+                            if co in unswept:
+                                hits.append((bi, co))
+            if not hits:
+                continue
+            eff = {bi: effects(b, bi, t) for (bi, t) in polls}
+            anyrc = [bi for (bi, t) in polls if 'RB' in eff[bi][1]]
+            if not anyrc:
+                continue
+            # the relocation of the L1 table is not explored (assumed dead, see C04): polls behind its entry are skipped
+            dead = [cbi for cbi, ct in b.calls() if (ct.get('fn') or '').endswith('L1Table::clone_and_grow')]
+            for bi, co in hits:
+                if any(b.dominates(dbi, bi) for dbi in dead):
+                    continue
+                out.append((short(b.path), b.where(bi), False,
+                            'awaits %s, whose loop at %s repeats mapping writes without a refcount sweep; the only full refcount sweeps '
+                            'of %s are at %s, outside that loop' % (short(co), unswept[co], short(b.path), [b.where(r) for r in anyrc])))
     return out
